@@ -5,7 +5,7 @@ use crate::parse::control_flow_expr::parse_match_cases;
 use crate::parse::iterator::LexIterator;
 use crate::parse::lex::token::Token;
 use crate::parse::operation::parse_expression;
-use crate::parse::result::ParseResult;
+use crate::parse::result::{custom, ParseResult};
 use crate::parse::statement::parse_statement;
 use crate::parse::statement::{is_start_statement, parse_reassignment};
 
@@ -46,6 +46,18 @@ pub fn parse_handle(expr_or_stmt: AST, it: &mut LexIterator) -> ParseResult {
     it.eat(&Token::NL, "handle")?;
 
     let cases = it.parse_vec(&parse_match_cases, "handle", start)?;
+    for case in &cases {
+        // an arm is written `name: Class => ..` or `_: Class => ..`
+        if let Node::Case { cond, .. } = &case.node {
+            // (an arm without class is left to the type checker)
+            if let Node::ExpressionType { expr: binder, ty: Some(_), .. } = &cond.node {
+                if !matches!(binder.node, Node::Id { .. } | Node::Underscore) {
+                    let msg = "Expected an identifier or _ before the class of a handle arm";
+                    return Err(Box::from(custom(msg, binder.pos)));
+                }
+            }
+        }
+    }
     let end = cases.last().map_or(start, |stmt| stmt.pos);
 
     let node = Node::Handle {
